@@ -128,6 +128,13 @@ def run(ctx):
     # provided trait methods that one backend overrides and the other inherits, among the methods blsful calls
     check_override_divergence(ctx, Pa, Pb)
     check_derived_divergence(ctx, Pa, Pb)
+    # points enter only through the subgroup-checking decoders: the backends agree on prime-order points, but
+    # blst's scalar multiplication (GLV) and the pure-Rust double-and-add differ on on-curve points outside the subgroup
+    from . import posctl as PC
+
+    bad = PC.unchecked_calls(Pa) + PC.unchecked_calls(Pb)
+    ctx.ob("E7.unchecked", "blsful", not bad, "calls to unchecked point decoders in blsful (either build): %s" % sorted({(f.key, p) for f, bb, p in bad})[:4], where=where(bad[0][0], bad[0][1]) if bad else None)
+    PC.run_posctl(ctx, "E7.unchecked", "unchecked")
     # seed-deterministic values avoid the backend sampler
     K.check_seeded_derivation(ctx, Pa)
     ctx.assume("blstrs_plus 0.8.18 and bls12_381_plus 0.8.18 implement the same curve arithmetic, encodings and hash-to-curve (numerical agreement of two dependency crates is not decided statically)")
